@@ -14,6 +14,7 @@ import random
 
 from .. import gen
 from ..engine import generic_shrink
+from ..world import target_kwargs
 from .common import (Sim, SimEndpoint, Result, new_shaper, call, StepCapExceeded, violation, finish,
                      check_invariants, shape_stats, set_knob, NEVER_FLUSH, SHEXC, SHACL, shacl_digest,
                      components, sha)
@@ -113,6 +114,7 @@ def generate(rng, tier, index):
                 sp["ns"] = shapers[0]["ns"]
         if "target_classes" in shapers[0]["target"] and rng.random() < 0.4:
             share["target_classes"] = True
+            shapers[0]["target"].pop("_via_file", None)      # a shared list object, not a file
             if rng.random() < 0.5 and tp == gen.RDF_TYPE:
                 # prefixed class names, resolved by each Shaper with its own namespaces; the second Shaper binds 'ex'
                 # to another namespace, so for it the same list names other (absent) classes
@@ -287,7 +289,7 @@ class _World(object):
 
 def _base_kwargs(spec):
     kw = {}
-    kw.update(copy.deepcopy(spec["target"]))
+    kw.update(target_kwargs(spec["target"]))
     kw.update(copy.deepcopy(spec["options"]))
     if "shapes_namespace" in spec:
         kw["shapes_namespace"] = spec["shapes_namespace"]
